@@ -587,7 +587,14 @@ func (p *parser) parseEnum(node *node32) (err error) {
 			v.Name = p.pegText(n)
 			if n.next.pegRule == ruleEQUAL {
 				n = n.next.next
-				v.Value, _ = strconv.ParseInt(p.pegText(n), 0, 64)
+				v.Value, err = strconv.ParseInt(p.pegText(n), 0, 64)
+				if err != nil {
+					// a zero-padded decimal such as "08" is not a base-prefixed literal
+					v.Value, err = strconv.ParseInt(p.pegText(n), 10, 64)
+				}
+				if err != nil {
+					return fmt.Errorf("parseEnum failed at value '%s': %w", p.pegText(n), err)
+				}
 			} else {
 				if len(values) == 0 {
 					v.Value = 0
